@@ -30,6 +30,8 @@ Step(e) ==
             IF ~Quiet THEN Flag({"C01", "C12"}, "published_message_not_delivered") ELSE Do(CutPub(e.id))
       [] e.ev = "op" /\ e.op = "cut_pub_mid" ->
             IF ~Quiet THEN Flag({"C01", "C12"}, "published_message_not_delivered") ELSE Do(CutPubMid(e.id, e.m))
+      [] e.ev = "op" /\ e.op = "flush" ->
+            IF e.res # "ok" THEN Flag({"C12"}, "flush_failed_although_the_server_is_reachable") ELSE Do(Notice(e.id))
       [] e.ev = "op" /\ e.op = "open_sub" ->
             IF ~e.synced THEN Flag({"C01"}, "subscription_never_took_effect") ELSE Do(OpenSub(e.id))
       [] e.ev = "op" /\ e.op = "cut_sub" ->
